@@ -38,6 +38,9 @@ typedef struct
 	int nzmul; word zmul_a[NW]; size_t zmul_n; word zmul_b[NW]; size_t zmul_m; word zmul_out[2 * NW];
 	int nzmod; word zmod_a[2 * NW + 1]; size_t zmod_n; const word* zmod_mod; size_t zmod_m; word zmod_out[NW];
 	int nam; int am_kind[4]; word amod_a[4][NW]; word amod_b[4][NW]; const word* amod_mod[4]; word amod_out[4][NW];   /* zzAddMod (+1) / zzSubMod (-1) */
+	int nsqr; word sqr_in[2][NW]; word sqr_out[2][NW]; int nfmul; word fmul_a[NW]; word fmul_b[NW]; word fmul_out[NW];   /* field squarings / product */
+	int npow; word pow_a[NW]; word pow_e[NW]; size_t pow_m; word pow_out[NW]; const word* A; const word* B; word A_val[NW]; word B_val[NW]; word p[NW];
+	int nd2; const void* d2_buf1; const void* d2_buf2; size_t d2_count; octet d2_in1[64]; octet d2_in2[16]; octet d2_out1[64]; octet d2_out2[16];   /* belt-kwp decryption */
 	int noid; const octet* oid_buf; size_t oid_count; size_t oid_ret;
 } env_t;
 extern env_t E;
